@@ -446,6 +446,71 @@ def step (w : World) (c : Call) : World := (step? w c).getD w
 
 def run (w : World) (cs : List Call) : World := cs.foldl step w
 
+/-! ## pre-executed transactions on a node (op kinds `pre` / `ver` / `sub` / `dotx` / `pack` / `qbal`)
+
+A client pre-executes a call on the node's live state and submits the transaction assembled from the read / write set
+later; other transactions may have been accepted in between. `xmodel.DoTx` (and `PrepareEnv` inside `VerifyTx`) accept
+the transaction only if every key it READ still carries the version it read - a key that did not exist must still not
+exist. The sandbox reads every key before it writes it, and the successful paths of Transfer / Propose / Vote write every
+key they read: read set = write set = the footprint below. -/
+
+inductive Key
+  /-- `balanceOf_<account>` of the governToken bucket (and the proposal lock records of that account) -/
+  | bal (a : Acct)
+  /-- key `id` of the proposal bucket and the timer task counter -/
+  | pidCounter
+  /-- the record of proposal `p` -/
+  | prop (p : Nat)
+  /-- everything (Init) -/
+  | all
+  deriving DecidableEq, Repr
+
+def footprint : Call → List Key
+  | .transfer s t _ => [.bal s, .bal t]
+  | .propose a _ _ _ _ => [.bal a, .pidCounter]
+  | .vote a pid _ => [.bal a, .prop pid]
+  | _ => [.all]
+
+def Key.clash : Key → Key → Bool
+  | .all, _ => true
+  | _, .all => true
+  | a, b => a == b
+
+/-- some transaction accepted after the pre-execution wrote a key the held transaction read -/
+def conflicts (fp : List Key) (later : List (List Key)) : Bool :=
+  later.any fun e => e.any fun k => fp.any (Key.clash k)
+
+/-- a held transaction: the call, how many transactions had been accepted when it was pre-executed, whether the
+pre-execution succeeded, whether `VerifyTx` has accepted it -/
+structure Held where
+  call : Call
+  seen : Nat
+  ok : Bool
+  verified : Bool := false
+  deriving Repr
+
+/-- a node: live state (confirmed + pending), the state of the tip block, the footprints of the accepted transactions
+(oldest first), the held transactions by tag -/
+structure Node where
+  live : World
+  conf : World
+  log : List (List Key) := []
+  held : List (String × Held) := []
+
+/-- `State.DoTx` of a held transaction: `none` = refused (stale read), otherwise the call takes effect on the CURRENT
+live state - the answer of the same call made now -/
+def Node.accept (n : Node) (h : Held) : Option Node :=
+  if conflicts (footprint h.call) (n.log.drop h.seen) then none
+  else (step? n.live h.call).map fun w => { n with live := w, log := n.log ++ [footprint h.call] }
+
+/-- a block of the miner with everything pending: the tip state becomes the live state -/
+def Node.pack (n : Node) : Node :=
+  let w := sealBlock n.live
+  { n with live := w, conf := w }
+
+/-- `QueryAccountGovernTokenBalance`: the balance in the state of the tip block -/
+def Node.queryBalance (n : Node) (a : Acct) : Option Int := (aget n.conf.gov.bal a).map (·.total)
+
 /-! ## observables -/
 
 def sumTot : List (Acct × Bal) → Int
